@@ -73,9 +73,13 @@ ConvBwdK(x, d, c) ==
 \* ... and input gradient (scatter of delta through the kernel taps, written as a gather).
 ConvBwdX(K, d, c) ==
   [ch \in 1..c.c |-> [i \in 1..c.h |-> [j \in 1..c.w |->
-     SumF([t \in (1..c.f) \X (1..ConvOH(c)) \X (1..ConvOW(c)) \X (1..c.kh) \X (1..c.kw) |->
-            IF TapH(c, t[2], t[4]) - c.ph = i /\ TapW(c, t[3], t[5]) - c.pw = j
-              THEN d[t[1]][t[2]][t[3]] * K[t[1]][ch][t[4]][t[5]] ELSE 0])]]]
+     SumF([t \in (1..c.f) \X (1..c.kh) \X (1..c.kw) |->
+            \* output position (oh, ow) that reads x[ch][i][j] through tap (a, b) = (t[2], t[3]), if any
+            LET ti == i + c.ph - 1 - (t[2] - 1)*c.dh
+                tj == j + c.pw - 1 - (t[3] - 1)*c.dw
+            IN IF ti >= 0 /\ tj >= 0 /\ ti % c.sh = 0 /\ tj % c.sw = 0
+                  /\ (ti \div c.sh) + 1 <= ConvOH(c) /\ (tj \div c.sw) + 1 <= ConvOW(c)
+                 THEN d[t[1]][(ti \div c.sh) + 1][(tj \div c.sw) + 1] * K[t[1]][ch][t[2]][t[3]] ELSE 0])]]]
 
 \* ---------- deconvolution (transposed convolution cropped by the padding) --------
 \* y[f][o][p] = sum over (ch,i,j,a,b) with (i-1)*sh + a - ph = o and (j-1)*sw + b - pw = p of x*K
@@ -108,14 +112,15 @@ PoolPre(x, c) ==
      IN  CHOOSE m \in {x[ch][q[1]][q[2]] : q \in W} : \A q \in W : x[ch][q[1]][q[2]] <= m]]]
 \* No window has two equal maxima (the property quantifies away from ties).
 PoolTieFree(x, c) ==
+  LET pre == PoolPre(x, c) IN
   \A ch \in 1..c.c, oh \in 1..PoolOH(c), ow \in 1..PoolOW(c) :
-     LET W == Window(c, oh, ow) m == PoolPre(x, c)[ch][oh][ow]
-     IN  Cardinality({q \in W : x[ch][q[1]][q[2]] = m}) = 1
+     LET W == Window(c, oh, ow) IN Cardinality({q \in W : x[ch][q[1]][q[2]] = pre[ch][oh][ow]}) = 1
 \* Mechanism: the upstream gradient is routed to the position of the maximum.
 PoolBwdX(x, g, c) ==
+  LET pre == PoolPre(x, c) IN
   [ch \in 1..c.c |-> [i \in 1..c.h |-> [j \in 1..c.w |->
      SumF([t \in (1..PoolOH(c)) \X (1..PoolOW(c)) |->
-            IF <<i, j>> \in Window(c, t[1], t[2]) /\ x[ch][i][j] = PoolPre(x, c)[ch][t[1]][t[2]]
+            IF i - (t[1] - 1)*c.sh \in 1..c.kh /\ j - (t[2] - 1)*c.sw \in 1..c.kw /\ x[ch][i][j] = pre[ch][t[1]][t[2]]
               THEN g[ch][t[1]][t[2]] ELSE 0])]]]
 
 \* ---------- dense -------------------------------------------------------------------
